@@ -85,6 +85,24 @@ impl<const N: usize> VmData<N> {
         })
     }
 
+    /// Verification hook: assembles a `VmData` from raw parts; only compiled
+    /// with `--cfg fidget_verif`
+    #[cfg(fidget_verif)]
+    pub fn verif_from_parts(ssa: SsaTape, asm: RegTape, vars: VarMap) -> Self {
+        Self {
+            ssa,
+            asm,
+            vars: vars.into(),
+        }
+    }
+
+    /// Verification hook: the inner SSA tape; only compiled with
+    /// `--cfg fidget_verif`
+    #[cfg(fidget_verif)]
+    pub fn verif_ssa(&self) -> &SsaTape {
+        &self.ssa
+    }
+
     /// Returns the length of the internal VM tape
     pub fn len(&self) -> usize {
         self.asm.len()
